@@ -212,7 +212,13 @@ def _mutate(rng, doc):
         op = rng.choice(["len-mismatch", "label-list", "label-list-short", "empty-values", "name-key"])
         if isinstance(p, dict) and isinstance(p.get("values"), list):
             if op == "len-mismatch":
-                p["values"] = p["values"] + [9]
+                if rng.random() < 0.5:
+                    p["values"] = p["values"] + [9]
+                else:
+                    # lengthen every *other* parameter instead (the odd one out comes first, last or between)
+                    for k2, p2 in d["global.parameters"].items():
+                        if k2 != k and isinstance(p2, dict) and isinstance(p2.get("values"), list):
+                            p2["values"] = p2["values"] + [9]
             elif op == "label-list":
                 p["label"] = ["l%d" % i for i in range(len(p["values"]))]
             elif op == "label-list-short":
@@ -225,13 +231,17 @@ def _mutate(rng, doc):
     if r < 0.36 and isinstance(d.get("env"), dict):
         env = d["env"]
         op = rng.choice(["dup-var-dep", "dup-dep-names", "empty-var-name", "dup-label-var", "spack", "git-item",
-                         "path-key"])
+                         "path-key", "odd-var-name"])
         if op == "dup-var-dep":
             env.setdefault("variables", {})["DEP0"] = "v"
             env.setdefault("dependencies", {}).setdefault("paths", []).append({"name": "DEP0", "path": "/tmp"})
         elif op == "dup-dep-names":
             env.setdefault("dependencies", {}).setdefault("paths", []).extend(
                 [{"name": "D", "path": "/tmp"}, {"name": "D", "path": "/"}])
+        elif op == "odd-var-name":
+            # names outside \w+ are names too; their values obey the same rules
+            env.setdefault("variables", {})[rng.choice(["RUN-DIR", "run.dir", "RUN DIR", "N+1", "CODE/V"])] = \
+                copy.deepcopy(rng.choice([None, "", ["x"], {"k": "v"}, True, "ok", 3]))
         elif op == "empty-var-name":
             env.setdefault("variables", {})[""] = "v"
         elif op == "dup-label-var":
